@@ -160,11 +160,32 @@ fn spawn_worker(engine: &str) -> Isolated {
     Isolated { child, rx }
 }
 
+/// user + system CPU time of a process in clock ticks (100 per second on Linux), from /proc/<pid>/stat
+fn cpu_ticks(pid: u32) -> Option<u64> {
+    let stat = std::fs::read_to_string(format!("/proc/{}/stat", pid)).ok()?;
+    let rest = &stat[stat.rfind(')')? + 1..];
+    let f: Vec<&str> = rest.split_whitespace().collect();
+    Some(f.get(11)?.parse::<u64>().ok()? + f.get(12)?.parse::<u64>().ok()?)
+}
+
 fn run_isolated(w: &mut Option<Isolated>, engine: &str, line: &str) -> CaseResult {
     if w.is_none() { *w = Some(spawn_worker(engine)); }
     let iso = w.as_mut().unwrap();
     let sent = iso.child.stdin.as_mut().map(|s| writeln!(s, "{}", line).and_then(|_| s.flush()).is_ok()).unwrap_or(false);
-    let reply = if sent { iso.rx.recv_timeout(Duration::from_secs(CASE_TIMEOUT_S)) } else { Err(mpsc::RecvTimeoutError::Disconnected) };
+    // The limit is on the CPU time the worker spends on the case (a loaded machine must not turn a 2 s case into a "hang"),
+    // with a wall-clock limit six times as long for a worker that is blocked rather than busy.
+    let (wall0, cpu0) = (std::time::Instant::now(), cpu_ticks(iso.child.id()));
+    let reply = if !sent { Err(mpsc::RecvTimeoutError::Disconnected) } else {
+        loop {
+            match iso.rx.recv_timeout(Duration::from_millis(500)) {
+                Err(mpsc::RecvTimeoutError::Timeout) => {
+                    let cpu_s = match (cpu0, cpu_ticks(iso.child.id())) { (Some(a), Some(b)) => b.saturating_sub(a) / 100, _ => wall0.elapsed().as_secs() };
+                    if cpu_s >= CASE_TIMEOUT_S || wall0.elapsed().as_secs() >= 6 * CASE_TIMEOUT_S { break Err(mpsc::RecvTimeoutError::Timeout); }
+                }
+                other => break other,
+            }
+        }
+    };
     match reply {
         Ok(l) => {
             let p: Vec<&str> = l.split('\t').collect();
@@ -173,7 +194,7 @@ fn run_isolated(w: &mut Option<Isolated>, engine: &str, line: &str) -> CaseResul
         }
         Err(e) => {
             let what = match e {
-                mpsc::RecvTimeoutError::Timeout => { let _ = iso.child.kill(); format!("no verdict within {} s (hang)", CASE_TIMEOUT_S) }
+                mpsc::RecvTimeoutError::Timeout => { let _ = iso.child.kill(); format!("no verdict within {} s of CPU time (hang)", CASE_TIMEOUT_S) }
                 mpsc::RecvTimeoutError::Disconnected => "process died".to_string(),
             };
             let status = iso.child.wait().map(|s| format!("{:?}", s)).unwrap_or_default();
